@@ -924,72 +924,100 @@ func (y *IfFeature) Evaluate(enabled map[string]*Feature) (bool, error) {
 		features: enabled,
 		expr:     y.expr,
 	}
-	e.eval(false)
-	b := e.pop()
-	err := e.lastErr
-	if err == nil && len(e.stack) != 0 {
-		return false, errors.New("syntax err in feature expression:" + y.expr)
+	b := e.orExpr()
+	if e.lastErr == nil && !e.end() {
+		e.fail()
 	}
-	return b, err
+	return b && e.lastErr == nil, e.lastErr
 }
 
+// ifFeatureEval is a recursive descent evaluator for RFC7950 Sec 7.20.2
+//
+//	if-feature-expr = if-feature-term [sep or sep if-feature-expr]
+//	if-feature-term = if-feature-factor [sep and sep if-feature-term]
+//	if-feature-factor = not sep if-feature-factor / "(" if-feature-expr ")" / identifier
 type ifFeatureEval struct {
 	features map[string]*Feature
 	expr     string
-	stack    []bool
 	pos      int
 	lastErr  error
 }
 
-func (y *ifFeatureEval) eval(greedy bool) {
-	for !y.end() {
-		tok := y.next()
-		switch tok {
-		case "(":
-			y.eval(false)
-		case ")":
-			return
-		case "and":
-			y.eval(true)
-			a, b := y.pop(), y.pop()
-			y.push(a && b)
-		case "not":
-			y.eval(true)
-			y.push(!y.pop())
-		case "or":
-			y.eval(false)
-			a, b := y.pop(), y.pop()
-			y.push(a || b)
-		default:
-			_, found := y.features[tok]
-			y.push(found)
-		}
-		if greedy {
-			return
-		}
+func (y *ifFeatureEval) fail() {
+	if y.lastErr == nil {
+		y.lastErr = errors.New("syntax err in feature expression:" + y.expr)
 	}
-	return
+}
+
+func (y *ifFeatureEval) orExpr() bool {
+	b := y.andExpr()
+	for y.lastErr == nil && y.peek() == "or" {
+		y.next()
+		// evaluate both sides, there is more to parse
+		rhs := y.andExpr()
+		b = b || rhs
+	}
+	return b
+}
+
+func (y *ifFeatureEval) andExpr() bool {
+	b := y.factor()
+	for y.lastErr == nil && y.peek() == "and" {
+		y.next()
+		rhs := y.factor()
+		b = b && rhs
+	}
+	return b
+}
+
+func (y *ifFeatureEval) factor() bool {
+	tok := y.next()
+	switch tok {
+	case "not":
+		return !y.factor()
+	case "(":
+		b := y.orExpr()
+		if y.next() != ")" {
+			y.fail()
+		}
+		return b
+	case "", ")", "and", "or":
+		y.fail()
+		return false
+	}
+	_, found := y.features[tok]
+	return found
+}
+
+func (y *ifFeatureEval) peek() string {
+	pos := y.pos
+	tok := y.next()
+	y.pos = pos
+	return tok
 }
 
 func (y *ifFeatureEval) end() bool {
+	y.eatws()
 	return y.pos >= len(y.expr)
 }
 
 func (y *ifFeatureEval) eatws() {
-	for !y.end() {
-		if y.expr[y.pos] != ' ' {
-			break
+	for y.pos < len(y.expr) {
+		switch y.expr[y.pos] {
+		case ' ', '\t', '\n', '\r':
+			y.pos++
+			continue
 		}
-		y.pos++
+		break
 	}
 }
 
 func (y *ifFeatureEval) next() string {
 	y.eatws()
 	start := y.pos
-	for !y.end() {
+	for y.pos < len(y.expr) {
 		switch y.expr[y.pos] {
-		case ' ':
+		case ' ', '\t', '\n', '\r':
 			goto brk
 		case '(', ')':
 			if y.pos == start {
@@ -1002,21 +1030,6 @@ func (y *ifFeatureEval) next() string {
 brk:
 	tok := y.expr[start:y.pos]
 	return tok
-}
-
-func (y *ifFeatureEval) pop() bool {
-	if len(y.stack) == 0 {
-		y.lastErr = errors.New("syntax err in feature expression:" + y.expr)
-		return false
-	}
-	last := len(y.stack) - 1
-	b := y.stack[last]
-	y.stack = y.stack[0:last]
-	return b
-}
-
-func (y *ifFeatureEval) push(b bool) {
-	y.stack = append(y.stack, b)
 }
 
 type When struct {
